@@ -633,7 +633,7 @@ func (x *Exec) doMakeMap(st *State, i *ssa.MakeMap) {
 	k := Fresh("k", ks)
 	st.Assume(Forall([]*Term{k}, Not(Select(empty, k)), []*Term{Select(empty, k)}))
 	st.Heap[pk+"#present"] = Store(pres, id, empty)
-	st.heapStore(id, pk+"#len", tyInt, Scalar{st.A.Idx(0), tyInt})
+	st.heapStore(id, pk+"#maplen", tyInt, Scalar{st.A.Idx(0), tyInt})
 	x.setReg(st, i, Scalar{id, i.Type()})
 }
 
